@@ -17,6 +17,7 @@ const (
 	verifSendBatch     // a message batch is about to be handed to the event loop
 	verifLoopEvent     // the event loop has received a peer / stream / wire event and not yet handled it
 	verifValidateTake  // a validation worker is about to take the next request from the validation queue
+	verifInboundExit   // the handler of an inbound stream has stopped reading and has not yet reported the stream closed
 )
 
 func verifYield(int) {}
